@@ -20,7 +20,7 @@ B63 = 2 ** 63
 
 THEOREMS = ["C12.time_shift", "C12.base_range", "C12.shifted_same_clock", "C12.shifted_monotone", "C12.shifted_exact",
             "C12.forever_absorbing", "C12.walltime_shift", "C12.walltime_far_past", "C12.walltime_far_future_partial",
-            "C12.walltime_now_shift", "C12.walltime_on_wall_clock", "C12.timeout_past_is_zero", "C12.F8_fixed", "C12.F1_fixed",
+            "C12.walltime_now_shift", "C12.walltime_on_wall_clock", "C12.timeout_past_is_zero", "C12.wait_deadline_past_does_not_block", "C12.F17_as_found", "C12.F8_fixed", "C12.F1_fixed",
             "Tie.time_consts"]
 
 SPECIALS = [0, 1, 2, 3, MAXV - 1, MAXV, MAXV + 1, 2 ** 62, B63 - 1, B63, B63 + 1, B63 + MAXV, B63 + 2 ** 62 - 1, B63 + 2 ** 62, B63 + 2 ** 62 + 1,
@@ -86,6 +86,16 @@ def gen_lines(rng, n):
         out.append("WN %d %d" % (rclock(2), rdelta()))
     for _ in range(n // 6):
         out.append("TO %d %d %d %d" % (rbase(), rclock(1), rclock(1), rclock(2)))
+    # the absolute deadline a POSIX-semaphore wait is given: times around the clock reading, on every clock
+    for _ in range(n // 6):
+        nu, nm, nw = rclock(1), rclock(1), rclock(2)
+        k = rng.below(8)
+        off = rng.choice([-10 ** 12, -10 ** 9, -1, 0, 1, 10 ** 6, 10 ** 9, 10 ** 12]) + rng.below(1000) - 500
+        if k < 2: t = max(1, min(MAXV, nu + off))
+        elif k < 5: t = B63 + max(0, min(MAXV, nm + off))
+        elif k < 7: t = M - max(3, min(MAXV, nw + off))
+        else: t = rbase()
+        out.append("TE %d %d %d %d" % (t, nu, nm, nw))
     return out
 
 
@@ -126,6 +136,21 @@ def oracle_T(line, out):
         if c == "wall" and want == 2:
             return None if r == WALLNOW else "elapsed wall time expected"
         return None if rv == want else "value %s, expected %d" % (rv, want)
+    if f[0] == "TE":
+        # "waiting until a time that is already past does not block": the absolute deadline handed to sem_timedwait must not be
+        # after the present wall-clock reading when the time is not after the reading of its own clock; for a future time the
+        # wait must last what is left on that clock
+        t, nu, nm, nw = map(int, f[1:])
+        if t == FOREVER:
+            return None if r == FOREVER else "FOREVER is not waited for forever"
+        c, v = decode(t, nw)
+        if v is None or not (1 <= nu <= MAXV and 1 <= nm <= MAXV and 2 <= nw <= MAXV):
+            return None
+        now = {"up": nu, "mono": nm, "wall": nw}[c]
+        if c != "wall" and v == 0: v = now
+        if v <= now:
+            return None if r <= nw else "a %s-clock time that is already past becomes a wait of %d ns (deadline %d, wall clock now %d)" % (c, r - nw, r, nw)
+        return None if r == nw + (v - now) else "a wait until a %s-clock time %d ns ahead is given %d ns" % (c, v - now, r - nw)
     if f[0] == "WT":
         sec, ns, d = map(int, f[1:])
         b = sec * 10 ** 9 + ns
@@ -152,6 +177,9 @@ def _wall_expect(s, r):
     if c != "wall":
         return "result %d decodes to clock %s, not the wall clock" % (r, c)
     return None if v == s else "wall value %s, expected %d" % (v, s)
+
+
+from tracecheck import run_traces
 
 
 def run(ctx):
@@ -191,8 +219,15 @@ def run(ctx):
     elif diffs:
         ctx.cov["layers"]["L-fn time"]["model_diffs"] = len(diffs)
 
+    # the waits themselves, on every clock (past deadlines return at once; a deadline 40 ms ahead is honoured)
+    run_traces(ctx, "c12_waits", [[ctx.seed * 10 + i] for i in range(2 if ctx.thorough else 1)], None, None, "L-api waits", "waits", timeout=120)
+
 
 def replay(ctx, obj):
+    if "cmd" in obj["replay"]:
+        import subprocess
+        p = subprocess.run(obj["replay"]["cmd"], stdout=subprocess.PIPE, text=True)
+        print(p.stdout[:600]); return 1 if "VIOL" in p.stdout else 0
     h = ctx.harness("lfn")
     line = obj["replay"]["line"]
     real, _, _ = run_lines(h, [line])
